@@ -249,7 +249,7 @@ func c16Stress(t *testing.T, m *vk.M, n int) {
 		m.Case(vk.Digest(sc.Cfg, sc.Adders, sc.Driver, st.order), nontrivial)
 		if m.WantSample() && (idx%97 == 1 || m.ViolCount() > v0) {
 			m.Sample(map[string]any{"scenario": sc, "tasks_executed": st.tasks, "batches_by_trigger": st.byTrigger,
-				"batch_order(trigger,size)": st.order, "wait_task_pairs_checked": st.waitsChecked})
+				"batch_order(T=threshold t=tick q=quit f=flush w=wait,size)": st.order, "wait_task_pairs_checked": st.waitsChecked})
 		}
 		if idx%200 == 0 {
 			m.Progress()
